@@ -298,6 +298,10 @@ static rlbox::tainted<long, Sbx> app_cb(Sandbox&, rlbox::tainted<long, Sbx> a, r
 {
   return a;
 }
+static rlbox::tainted<long, Sbx> app_cb2(Sandbox&, rlbox::tainted<long, Sbx> a, rlbox::tainted<unsigned, Sbx>)
+{
+  return a;
+}
 
 // a callback whose parameters cover the remaining scalar kinds, a function pointer and a long; unsigned long result
 struct CbCRec
@@ -782,7 +786,37 @@ struct InvokeWorld : World
   {
     if (!m.cb)
       return;
-    int form = (int)((uint64_t)op.a[1] % 3);
+    int form = (int)((uint64_t)op.a[1] % 8);
+    if (form >= 3 && form <= 5) {
+      // an owner that holds no registration (never had one / gave it up / was moved from) is "no callback": the
+      // function runs, once, with a null function pointer
+      using Cb = rlbox::sandbox_callback<long (*)(long, unsigned), Sbx>;
+      Expect e0;
+      e0.args = { 0, 0 };
+      g_result_bits = (uint64_t)op.a[3];
+      size_t before0 = g_glog.size();
+      int got0 = 0;
+      Outcome o0 = attempt([&] {
+        Cb inert;
+        if (form == 4) {
+          Cb tmp = m.sb->register_callback(app_cb2);
+          tmp.unregister();
+          inert = std::move(tmp);
+        } else if (form == 5) {
+          Cb tmp = m.sb->register_callback(app_cb2);
+          Cb taker = std::move(tmp);
+          got0 = m.sb->invoke_sandbox_function(f_fn, tmp, nullptr).UNSAFE_unverified();
+          return;
+        }
+        got0 = m.sb->invoke_sandbox_function(f_fn, inert, nullptr).UNSAFE_unverified();
+      });
+      C->ev("fn with inert callback owner (form %d) -> %s", form, oname(o0));
+      C->probe("inert_callback_owner_passed_as_argument");
+      if (judge(m, FN_FN, o0, before0, e0, "fn") && got0 != (int)(int32_t)g_result_bits)
+        C->violate("C11", "wrong_result@fn", "result");
+      return;
+    }
+    form %= 3;
     bool fresh_addr = form != 1 || !m.have_addr[FN_VOID];
     Expect e;
     uint32_t cbidx = (uint32_t)m.cb->UNSAFE_sandboxed(*m.sb);
@@ -1470,6 +1504,15 @@ struct InvokeWorld : World
           });
           if (o != OK || got != g_add3(a, b, cc))
             c.violate("C11", "wrong_result@noop_invoke", "g_add3");
+          // the address of a sandbox function as the static-call configuration obtains it: the backend's
+          // representation of that same function (identity on noop)
+          void* rep = nullptr;
+          Outcome o2 = attempt([&] {
+            auto fp = nsb.template INTERNAL_get_sandbox_function_ptr<decltype(g_add3)>(reinterpret_cast<void*>(&g_add3));
+            rep = reinterpret_cast<void*>(fp.UNSAFE_sandboxed(nsb));
+          });
+          if (!c.stop && (o2 != OK || rep != reinterpret_cast<void*>(&g_add3)))
+            c.violate("C11", "function_address_is_not_backend_representation@noop_invoke", "INTERNAL_get_sandbox_function_ptr(g_add3) (%s)", oname(o2));
           break;
         }
       }
